@@ -6,6 +6,9 @@ CONSTANTS
   Configs <- MCConfigs
   Acl <- MCAcl
   EmptyZones <- MCEmptyZones
+  ChaosNames <- MCChaosNames
+  ChaosKnown <- MCChaosKnown
+  ChaosOn <- MCChaosOn
   Names <- MCNames
   Types <- MCTypes
   IntW = 2
